@@ -361,7 +361,6 @@ fn run_binning<I: BinningIndex>(target: usize, data: &[u8], side: &corpus::Side,
     let _ = (ix.min_shift(), ix.depth(), ix.header().is_some(), ix.unplaced_unmapped_record_count(), ix.last_first_record_start_position());
     for rs in ix.reference_sequences() {
         let _ = rs.metadata();
-        let _ = rs.first_record_in_last_linear_bin_start_position();
     }
     let _ = side;
     let touch_aln = |r: &dyn sam::alignment::Record| {
@@ -451,7 +450,11 @@ pub fn run(p: &Probe, data: &[u8], side: &corpus::Side) -> io::Result<usize> {
             r.seek(vp(*vpos))?;
             let _ = u64::from(r.virtual_position());
             let mut buf = [0u8; 300];
+            // the call patterns of the record readers: read_exact of a few bytes, read, fill_buf
+            let mut small = [0u8; 4];
+            let first = r.read_exact(&mut small);
             let n = r.read(&mut buf)?;
+            first?;
             let w = r.fill_buf()?.len();
             let _ = u64::from(r.virtual_position());
             Ok(n + w)
@@ -462,7 +465,10 @@ pub fn run(p: &Probe, data: &[u8], side: &corpus::Side) -> io::Result<usize> {
             let mut r = bgzf::io::Reader::new(Cursor::new(data));
             r.seek_by_uncompressed_position(&index, *pos)?;
             let mut buf = [0u8; 300];
+            let mut small = [0u8; 4];
+            let first = r.read_exact(&mut small);
             let n = r.read(&mut buf)?;
+            first?;
             let _ = u64::from(r.virtual_position());
             Ok(n)
         }
@@ -578,8 +584,8 @@ fn arb_bin_ids(rng: &mut Rng, min_shift: u8, depth: u8) -> Vec<usize> {
         1 => 1,
         _ => rng.urange(2, 12),
     };
-    let mut ids: Vec<usize> = (0..n)
-        .map(|_| match rng.below(6) {
+    let mut ids: Vec<usize> = if rng.chance(3, 5) { vec![0] } else { vec![] }; // bin 0 overlaps every interval
+    ids.extend((0..n).map(|_| match rng.below(6) {
             0 => 0,
             1 => nb.saturating_sub(1),
             2 => nb,     // one past the last bin
@@ -592,8 +598,7 @@ fn arb_bin_ids(rng: &mut Rng, min_shift: u8, depth: u8) -> Vec<usize> {
                 let shift = (min_shift as usize + 3 * (depth as usize - l)).min(63);
                 first + ((rng.below(200_000) as usize) >> shift)
             }
-        })
-        .collect();
+        }));
     let mut seen = std::collections::HashSet::new();
     ids.retain(|i| seen.insert(*i));
     ids
@@ -603,7 +608,10 @@ fn arb_name(rng: &mut Rng, d: &DataInfo) -> Vec<u8> {
     match rng.below(8) {
         0..=4 if !d.ref_names.is_empty() => rng.pick(&d.ref_names).clone(),
         5 => vec![],
-        6 => rng.bytes(rng.urange(1, 12)),
+        6 => {
+            let n = rng.urange(1, 12);
+            rng.bytes(n)
+        }
         _ => b"chrUnknown".to_vec(),
     }
 }
@@ -660,7 +668,7 @@ pub fn arb_index(rng: &mut Rng, d: &DataInfo, linear: bool, with_header: bool, h
                 r.linear = (0..n).map(|_| arb_vpos(rng, d)).collect();
             }
             if rng.chance(1, 2) {
-                r.metadata = Some((arb_vpos(rng, d), arb_vpos(rng, d), rng.skewed(u64::MAX), rng.skewed(u64::MAX)));
+                r.metadata = Some((arb_vpos(rng, d), arb_vpos(rng, d), rng.skewed(u64::MAX - 1), rng.skewed(u64::MAX - 1)));
             }
             r
         })
@@ -672,7 +680,10 @@ pub fn arb_index(rng: &mut Rng, d: &DataInfo, linear: bool, with_header: bool, h
             1 => {
                 names.pop();
             }
-            2 => names.push(rng.bytes(rng.urange(0, 9))),
+            2 => {
+                let n = rng.urange(0, 9);
+                names.push(rng.bytes(n))
+            }
             3 => names.reverse(),
             _ => {}
         }
